@@ -153,6 +153,9 @@ class Fn:
         parts = sp.split(":")
         if len(parts) == 2:
             return "%s:%s" % (self.file, parts[0])
+        if parts[1] == "1" and parts[0] != self.file and parts[0].endswith("lib.rs"):
+            # a dummy / crate-root span (compiler-generated block): point at the function instead
+            return "%s:%d" % (self.file, self.line)
         return "%s:%s" % (parts[0], parts[1])
 
     # ---- CFG ------------------------------------------------------------
